@@ -403,7 +403,9 @@ def filter_and_replace_breaks_connected_to_end_events(
                 # the end events are not included in the following)
                 if has_path_back_to_chosen_nodes(
                     event, loop.loop_events.difference(loop.end_events), graph
-                ) and event not in loop.end_events:
+                ) and event not in loop.end_events and (
+                    event in loop.loop_events
+                ):
                     # update all events set connections and add the dummy
                     # break event in between the break event and the event
                     event_types_overlap = (
